@@ -30,6 +30,8 @@ pub struct Maker {
     pub fail_calls: Vec<usize>,
     pub calls: std::sync::Arc<AtomicUsize>,
     pub log: Mutex<Vec<(usize, std::thread::ThreadId)>>,
+    /// every word drawn, also by calls that then failed
+    pub words: std::sync::Arc<Mutex<Vec<u64>>>,
 }
 impl Composable for Maker {}
 impl<'a> Operator<&'a Vec<Kid>> for Maker {
@@ -38,6 +40,7 @@ impl<'a> Operator<&'a Vec<Kid>> for Maker {
     fn apply<R: Rng + ?Sized>(&self, p: &'a Vec<Kid>, rng: &mut R) -> Result<Kid, Injected> {
         let k = self.calls.fetch_add(1, Ordering::SeqCst);
         let word = rng.next_u64();
+        self.words.lock().unwrap().push(word);
         self.log.lock().unwrap().push((k, std::thread::current().id()));
         if self.fail_calls.contains(&k) {
             return Err(Injected(k));
@@ -98,7 +101,8 @@ pub fn judge(before: &[Kid], before_ptr: usize, after: &[Kid], after_ptr: usize,
 /// one execution on real threads
 pub fn execute(parallel: bool, n: usize, fail_calls: &[usize], pool: Option<&rayon::ThreadPool>) -> (Option<(&'static str, String)>, usize) {
     let counter = std::sync::Arc::new(AtomicUsize::new(0));
-    let maker = Maker { fail_calls: fail_calls.to_vec(), calls: counter.clone(), log: Mutex::new(vec![]) };
+    let words = std::sync::Arc::new(Mutex::new(vec![]));
+    let maker = Maker { fail_calls: fail_calls.to_vec(), calls: counter.clone(), log: Mutex::new(vec![]), words: words.clone() };
     let mut g = Generation::new(maker, initial(n));
     let before = g.population().clone();
     let before_ptr = g.population().as_ptr() as usize;
@@ -115,6 +119,36 @@ pub fn execute(parallel: bool, n: usize, fail_calls: &[usize], pool: Option<&ray
     let after_ptr = g.population().as_ptr() as usize;
     let calls = counter.load(Ordering::SeqCst);
     let first = judge(&before, before_ptr, &after, after_ptr, &r, fail_calls, calls);
+    if first.is_none() && r.is_err() && n > 0 {
+        // the step after a failed one (all planned failures are used up by now unless they lie beyond
+        // the calls made): its children draw live randomness, not the words the failed attempt drew
+        let drawn_before: Vec<u64> = words.lock().unwrap().clone();
+        let later_calls_fail = fail_calls.iter().any(|f| *f >= calls);
+        if !later_calls_fail {
+            let before = g.population().clone();
+            let before_ptr = g.population().as_ptr() as usize;
+            let r2 = mcx::guarded(|| match (parallel, pool) {
+                (true, Some(p)) => p.install(|| g.par_next()),
+                (true, None) => g.par_next(),
+                (false, _) => g.serial_next(),
+            });
+            match r2 {
+                Err(p) => return (Some(("panic", format!("the step after a failed step panicked: {p}"))), calls),
+                Ok(r2) => {
+                    let after = g.population().clone();
+                    let after_ptr = g.population().as_ptr() as usize;
+                    let now = counter.load(Ordering::SeqCst);
+                    if let Some((k, w)) = judge(&before, before_ptr, &after, after_ptr, &r2, &[], now - calls) {
+                        return (Some((k, format!("the step after a failed step: {w}"))), now);
+                    }
+                    if let Some(k) = after.iter().find(|k| drawn_before.contains(&k.word)) {
+                        return (Some(("correlated-randomness", format!("after a failed step, a child of the next step drew the word {:#x} that a child of the failed attempt had drawn: the generator was rewound", k.word))), now);
+                    }
+                }
+            }
+        }
+        return (first, calls);
+    }
     if first.is_some() || r.is_err() || n == 0 {
         return (first, calls);
     }
@@ -223,7 +257,7 @@ pub fn run(run: &mut Run) {
     run.transitions = execs;
     run.traces_validated = execs;
     run.distinct_nontrivial = err_paths * 17;
-    run.rule = "tier A: {serial_next, par_next} x population size 0..6 x failure plans {none, every single call, every pair of calls} x rayon pool size 1..16, each configuration executed several times on real threads, successful steps followed by two more steps on the same Generation (every step must build on the population the previous step produced); larger populations (17..257, thorough ..1000) with a reduced failure product; oracle independent of the schedule (size preserved, every child made from the unmodified previous population, pairwise distinct random words, on error: population identical and error among the injected ones). Tier B (merged below when available): all schedules of the rayon model for N <= 3/4. non-trivial = configurations with at least one injected failure".into();
+    run.rule = "tier A: {serial_next, par_next} x population size 0..6 x failure plans {none, every single call, every pair of calls} x rayon pool size 1..16, each configuration executed several times on real threads, successful steps followed by two more steps on the same Generation (every step must build on the population the previous step produced), failed steps followed by one more step (fresh randomness, not the failed attempt's words); larger populations (17..257, thorough ..1000) with a reduced failure product; oracle independent of the schedule (size preserved, every child made from the unmodified previous population, pairwise distinct random words, on error: population identical and error among the injected ones). Tier B (merged below when available): all schedules of the rayon model for N <= 3/4. non-trivial = configurations with at least one injected failure".into();
     run.bound("tierA.max_population", json!(max_n));
     run.bound("tierA.pool_sizes", json!("1..=16"));
     run.bound("tierA.failure_deviation_bound", json!(2));
